@@ -91,6 +91,7 @@ func TestC09(t *testing.T) {
 		var keptSK lake.Pool
 		var keptInner *Pool
 		ar := ApplyFresh(patch, dmgDir, outDir, ApplyOpts{
+			PoolSlice: drawSlicer(rt, "oldpoolslice"), // the pool below the safekeeper may return short reads
 			OnPool: func(p *Pool) {
 				keptInner = p
 				if retry {
